@@ -277,25 +277,28 @@ class ReadTarFS(FS):
     @property
     def _directory_entries(self):
         """Lazy directory cache."""
-        if self._directory_cache is None:
-            _decode = self._decode
-            _directory_entries = (
-                (_decode(info.name).strip("/"), info) for info in self._tar
-            )
+        # NB: the lock keeps two threads from reading the archive together
+        # (and one of them from caching a partial listing) on first use
+        with self._lock:
+            if self._directory_cache is None:
+                _decode = self._decode
+                _directory_entries = (
+                    (_decode(info.name).strip("/"), info) for info in self._tar
+                )
 
-            def _list_tar():
-                for name, info in _directory_entries:
-                    try:
-                        _name = normpath(name)
-                    except IllegalBackReference:
-                        # Back references outside root, must be up to no good.
-                        pass
-                    else:
-                        if _name:
-                            yield _name, info
+                def _list_tar():
+                    for name, info in _directory_entries:
+                        try:
+                            _name = normpath(name)
+                        except IllegalBackReference:
+                            # Back references outside root, must be up to no good.
+                            pass
+                        else:
+                            if _name:
+                                yield _name, info
 
-            self._directory_cache = OrderedDict(_list_tar())
-        return self._directory_cache
+                self._directory_cache = OrderedDict(_list_tar())
+            return self._directory_cache
 
     def __repr__(self):
         # type: () -> Text
